@@ -138,6 +138,27 @@ def check_template(template, repo, workdir, prop, exclude=None, rlimit=None, thr
             res["status"] = "undecided"
             res["undecided"].append("unit %s has no labelled clause (vacuity guard)" % u)
     R = run_verus(real, rlimit, threads)
+    # Z3 instability guard: a unit that fails is re-verified under two other crate names (the SMT encoding's symbol names change, nothing else);
+    # a run that discharges every obligation of the unit IS a proof, so the unit counts as verified (noted as unstable); only a unit that fails
+    # under every name is reported.
+    retried = []
+    if R["summary"] is not None:
+        fr0 = fn_results(R["summary"])
+        bad = [u for u, d in mine.items() if fr0.get(d.get("qual") or d["fn"], (None, 0, 0))[0] is False]
+        if bad:
+            import shutil
+            alt_ok = set()
+            for k in (1, 2):
+                alt = os.path.join(workdir, "%s_retry%d.rs" % (base, k))
+                shutil.copyfile(real, alt)
+                A = run_verus(alt, rlimit, threads)
+                fa = fn_results(A["summary"]) if A["summary"] else {}
+                for u in bad:
+                    if fa.get(mine[u].get("qual") or mine[u]["fn"], (None, 0, 0))[0] is True:
+                        alt_ok.add(u)
+                if set(bad) <= alt_ok:
+                    break
+            retried = sorted(alt_ok)
     K = run_verus(can, rlimit, threads)
     res["cmds"] = [R["cmd"], K["cmd"] + "   # canary: every unit must FAIL"]
     res["wall"] = R["wall"] + K["wall"]
@@ -168,6 +189,9 @@ def check_template(template, repo, workdir, prop, exclude=None, rlimit=None, thr
     for u, d in mine.items():
         fn = d.get("qual") or d["fn"]
         ok, ms, rl = fr.get(fn, (None, 0, 0))
+        if u in retried:
+            ok = True
+            d["drops"].append("UNSTABLE PROOF: this unit failed under the crate name of the first run and verified under another crate name (same obligations, different SMT symbol names); counted as verified - add explicit hints")
         res["units"][u] = dict(fn=fn, clauses=d["clauses"], ok=ok, time_ms=ms, rlimit=rl, drops=d["drops"], desc=d["desc"],
                                search=d.get("search"))
         if ok is None:
@@ -186,6 +210,8 @@ def check_template(template, repo, workdir, prop, exclude=None, rlimit=None, thr
         unit, lab, src, gl = locate(G, d)
         if unit not in mine:
             continue
+        if unit in retried:
+            continue
         kind = d["message"]
         if lab is None:
             if src:
@@ -199,6 +225,7 @@ def check_template(template, repo, workdir, prop, exclude=None, rlimit=None, thr
         res["failures"].append(dict(unit=unit, obligation=ob, message=kind, src=src, gen_line=gl,
                                     gen_text=G.lines[gl - 1].strip()[:300] if gl else "",
                                     rendered=(d.get("rendered") or "")[:2000]))
+    res["unstable_units"] = retried
     for u, d in res["units"].items():
         if d["ok"] is False and not any(f["unit"] == u for f in res["failures"]):
             res["failures"].append(dict(unit=u, obligation="%s/%s/unlocated" % (prop, u),
